@@ -52,3 +52,17 @@ Example C19_example :
   instant_to_utc (63844847999 + 1, 0) = (0, 2024, 3, 1, 0, 0, 0) /\
   gnss_to_instant 2021 1 1 0 0 0 (-1) = (63745056000 - 1, 999999999) /\ valid_record (999999999, 2024, 2, 29, 23, 59, 59).
 Proof. unfold valid_record, billion. repeat split; vm_compute; try reflexivity; discriminate. Qed.
+
+(* The model IS the code (field mapping): UTCTime.Time, UTCTime.UnmarshalTime and GNSSPVTData.Time as REGENERATED from
+   measurementdata.go on this run (Gen/TimeFns.v) - which field is which argument of time.Date(.., time.UTC), through which
+   integer conversion; which accessor of ts.UTC() fills which field, truncated to which width - are utc_to_instant,
+   instant_to_utc and gnss_to_instant.  (time.Date and the accessors are the calendar model the theorems above are about.) *)
+Require Import Base.GoBytes Gen.TimeFns Tie.TimeAgree.
+Theorem C19_conversions_model_is_the_source :
+  (forall r, g_UTCTime_Time go_date r = Val (utc_to_instant r)) /\
+  (forall y mo d h mi s nano, g_GNSSPVTData_Time go_date (y, mo, d, h, mi, s, nano) = Val (gnss_to_instant y mo d h mi s nano)) /\
+  (forall t old zy zmo zd zh zmi zs zns,
+     let '(y, mo, d, h, mi, s, ns) := acc_of t in
+     g_UTCTime_UnmarshalTime y mo d h mi s ns zy zmo zd zh zmi zs zns old = Val (instant_to_utc t)).
+Proof. split; [exact utc_time_agrees|]. split; [exact gnss_time_agrees|exact utc_unmarshal_time_agrees]. Qed.
+Print Assumptions C19_conversions_model_is_the_source.
